@@ -188,6 +188,10 @@ var c05Programs = []string{
 	"counter n\n/^x/ {\n  n++\n}\nstop\n",
 	"counter n\nn++\nstrptime(getfilename(), \"2006-01-02\")\n",
 	"counter n by k\ngauge g\n/^(\\w+)=(\\S+)$/ {\n  n[$1]++\n  g = int($2)\n} else {\n  g = strtol(\"zz\", 10)\n}\n",
+	// a capture group read on a line on which its pattern was not tried: the match sits behind a
+	// short-circuit, its group is used in the block
+	"counter c by n\n/^(?P<k>\\w+) (?P<rest>.*)$/ {\n  $k == \"a\" || $rest =~ /^n=(?P<n>\\d+)/ {\n    c[$n]++\n  }\n}\n",
+	"counter c by n\ncounter d\n/^(?P<k>\\w+) (?P<rest>.*)$/ {\n  $k != \"a\" && $rest =~ /^n=(?P<n>\\d+)/ {\n    d++\n  } else {\n    c[$n]++\n  }\n}\n",
 }
 
 var c05Lines = []string{
@@ -197,6 +201,7 @@ var c05Lines = []string{
 	"Mar  7 10:11:12 host x", "Mar  7 10:11:12 host y", "Feb 30 10:11:12 h", "Dec 31 23:59:59 h",
 	"1700000000", "42", "-62135596800", "k=12", "k=x", "k=3.5", "stop now", "foo", "bar", "x y", "x", "p q",
 	"del foo", "exp foo", "exp bar", "1.5", "3", "100", "", "HEAD /", "GET /",
+	"b n=7", "a n=9", "a zzz", "b zzz", "b n=12",
 }
 
 func init() {
